@@ -272,6 +272,48 @@ def translate_kk(out, names_out, untranslatable):
         untranslatable.append({"what": "Kramers-Kronig design matrix columns", "detail": str(ex)})
 
 
+def translate_zhit(out, names_out, untranslatable):
+    """Z-HIT: the reconstruction formula of `_reconstruct` (both representation branches) and the residual of
+    the offset fit `_offset_residual`."""
+    import pyimpspec.analysis.zhit.reconstruction as RC
+    import pyimpspec.analysis.zhit.offset as OF
+    try:
+        src = textwrap.dedent(inspect.getsource(RC._reconstruct))
+        fn = ast.parse(src).body[0]
+        env = {}
+        for st in ast.walk(fn):
+            if isinstance(st, ast.Assign) and len(st.targets) == 1 and isinstance(st.targets[0], ast.Name) and st.targets[0].id == "gamma":
+                env["gamma"] = py2e(st.value, {})
+        if "gamma" not in env:
+            raise Untranslatable("_reconstruct: gamma not found")
+        found = None
+        for st in ast.walk(fn):
+            if isinstance(st, ast.If) and isinstance(st.test, ast.Name) and st.test.id == "admittance" and len(st.body) == 1 and len(st.orelse) == 1:
+                a, b = st.body[0], st.orelse[0]
+                ok = all(isinstance(x, ast.Expr) and isinstance(x.value, ast.Call) and isinstance(x.value.func, ast.Attribute) and x.value.func.attr == "append"
+                         and len(x.value.args) == 1 for x in (a, b))
+                if ok:
+                    found = (py2e(a.value.args[0], env), py2e(b.value.args[0], env))
+        if found is None:
+            raise Untranslatable("_reconstruct: the `if admittance: ln_modulus.append(...)` statement was not found")
+        out.append(f"/-- `_reconstruct`: value appended for one frequency, admittance branch -/\ndef zhit_rec_Y : E := {found[0]}")
+        out.append(f"/-- `_reconstruct`: value appended for one frequency, impedance branch -/\ndef zhit_rec_Z : E := {found[1]}")
+        # offset residual: parameters.valuesdict()["offset"] is the variable `offset`
+        src = textwrap.dedent(inspect.getsource(OF._offset_residual))
+        fn = ast.parse(src).body[0]
+        env = {}
+        for st in fn.body:
+            if isinstance(st, ast.AnnAssign) and isinstance(st.target, ast.Name) and st.target.id == "offset":
+                env["offset"] = '(.var "offset")'
+            elif isinstance(st, ast.AnnAssign) and isinstance(st.target, ast.Name) and st.value is not None:
+                env[st.target.id] = py2e(st.value, env)
+            elif isinstance(st, ast.Return):
+                out.append(f"/-- `_offset_residual`, one point -/\ndef zhit_offset_residual : E := {py2e(st.value, env)}")
+        names_out.extend(["rec", "offset_residual"])
+    except Untranslatable as ex:
+        untranslatable.append({"what": "Z-HIT kernels", "detail": str(ex)})
+
+
 def generate(gen_dir, untranslatable):
     from sympy import sympify
     from pyimpspec.circuit.registry import get_elements
@@ -297,6 +339,9 @@ def generate(gen_dir, untranslatable):
     translate_tlm(out, tlm_names, untranslatable)
     ana = []
     translate_analysis(out, ana, untranslatable)
+    zh = []
+    translate_zhit(out, zh, untranslatable)
+    out.append("def zhitKernels : List String := [" + ", ".join(f'"{n}"' for n in zh) + "]")
     kk = []
     translate_kk(out, kk, untranslatable)
     out.append("def kkColumns : List String := [" + ", ".join(f'"{n}"' for n in kk) + "]")
